@@ -758,7 +758,61 @@ func (m *Model) fillHandler(hi *HandlerInfo) {
 				return true
 			})
 		}
+		if hi.ReqVar == nil {
+			m.reqFromDecodingHelper(fn, setReq)
+		}
 	}
+}
+
+// reqFromDecodingHelper: the handler hands a literal to a helper that decodes the message and calls the
+// literal with a pointer to what it decoded (withSession(h, msg, func(req *T, …) error {…})): the literal's
+// message-typed parameter is the request.
+func (m *Model) reqFromDecodingHelper(fn *Func, setReq func(types.Object)) {
+	info := fn.Info()
+	ast.Inspect(fn.Body, func(n ast.Node) bool {
+		call, ok := n.(*ast.CallExpr)
+		if !ok {
+			return true
+		}
+		g, _ := calleeObj(info, call).(*types.Func)
+		if g == nil || fn.progFuncs == nil {
+			return true
+		}
+		gd := fn.progFuncs[g]
+		if gd == nil || gd.Body == nil {
+			return true
+		}
+		decodes := false
+		ast.Inspect(gd.Body, func(x ast.Node) bool {
+			if c, ok := x.(*ast.CallExpr); ok && calleeObj(gd.Info(), c) == m.DataTo {
+				decodes = true
+			}
+			return true
+		})
+		if !decodes {
+			return true
+		}
+		for _, a := range call.Args {
+			lit, ok := ast.Unparen(a).(*ast.FuncLit)
+			if !ok || lit.Type.Params == nil {
+				continue
+			}
+			for _, fld := range lit.Type.Params.List {
+				for _, nm := range fld.Names {
+					obj := info.Defs[nm]
+					if obj == nil {
+						continue
+					}
+					if pt, ok := obj.Type().(*types.Pointer); ok {
+						if nt, ok := pt.Elem().(*types.Named); ok && nt.Obj().Pkg() != nil && strings.Contains(nt.Obj().Pkg().Path(), "/messages/") {
+							setReq(obj)
+						}
+					}
+				}
+			}
+		}
+		return true
+	})
 }
 
 func (hi *HandlerInfo) Key() string {
